@@ -132,7 +132,7 @@ def run_one(ctl: explorer.Ctl, cfg: Dict[str, Any]) -> Dict[str, Any]:
     writes: List[tuple] = []
     st: Dict[str, Any] = {"answered": False, "t_answer": None}
     client = StdioClient(seams.stdio_params()) if cfg["tracked"] else None
-    if client is not None and cfg.get("preset"):
+    if client is not None and cfg.get("preset") and cfg.get("reenter") != "second-connection":
         # the tracked client already went through an earlier handshake that settled on this version
         client.set_protocol_version(cfg["preset"])
 
@@ -181,7 +181,20 @@ def run_one(ctl: explorer.Ctl, cfg: Dict[str, Any]) -> Dict[str, Any]:
             st["consumer"] = _asyncio.ensure_future(slow_consumer())
         kw = {"timeout": T, "supported_versions": list(sup), "preferred_version": pref}
         try:
-            if client is not None:
+            if client is not None and cfg.get("reenter"):
+                # the tracked client object is really connected (scripted process): either the version was preset before
+                # its first connection, or it went through one connection that settled on it and is now connected again
+                procs = iter([seams.FakeProcess(), seams.FakeProcess()])
+                with seams.patched_open_process(lambda cmd, kw_: next(procs)):
+                    if cfg["reenter"] == "second-connection":
+                        async with client:
+                            client.set_protocol_version(cfg["preset"])
+                    async with client:
+                        try:
+                            r = await send_initialize_with_client_tracking(recv_r, w, client=client, **kw)
+                        finally:
+                            st["info"] = dict(client.get_batching_info())
+            elif client is not None:
                 r = await send_initialize_with_client_tracking(recv_r, w, client=client, **kw)
             else:
                 r = await send_initialize(recv_r, w, **kw)
@@ -257,7 +270,7 @@ def run_one(ctl: explorer.Ctl, cfg: Dict[str, Any]) -> Dict[str, Any]:
                 if "id" in notes[0][1]:
                     bad("initialized-has-id", f"{notes[0][1]}")
             if client is not None:
-                info = client.get_batching_info()
+                info = st.get("info") or client.get_batching_info()
                 want = {"protocol_version": a["v"], "batching_enabled": a["v"] < "2025-06-18"}
                 well_formed = len(a["v"]) == 10 and a["v"][4] == "-" and a["v"][7] == "-" and \
                     a["v"].replace("-", "").isdigit()
@@ -271,8 +284,8 @@ def run_one(ctl: explorer.Ctl, cfg: Dict[str, Any]) -> Dict[str, Any]:
             bad(cls, "initialization succeeded although the server did not answer with an offered version")
         if notes:
             bad("initialized-sent-on-failure", f"{len(notes)} initialized notifications although initialization failed ({okind})")
-        if client is not None and client.get_batching_info().get("protocol_version") != cfg.get("preset"):
-            bad("tracked-client-set-on-failure", f"{client.get_batching_info()}")
+        if client is not None and (st.get("info") or client.get_batching_info()).get("protocol_version") != cfg.get("preset"):
+            bad("tracked-client-set-on-failure", f"{st.get('info') or client.get_batching_info()}")
         if a["kind"].startswith("version") and okind != "version-mismatch" and not (
                 cfg.get("write") == "unbuffered-stall" and okind == "timeout"):
             bad("wrong-failure-kind", "an unoffered version must raise VersionMismatchError")
@@ -527,9 +540,10 @@ def run(tier: str, only=None) -> core.Result:
                             cfgs.append({"list": sup, "pref": pref, "answer": ai, "when": when, "distractor": d, "tracked": tr})
                 # a tracked client that is re-initialised: it still carries the version of its previous handshake
                 if pref is None and ANSWERS[ai]["kind"] in ("version", "silence", "error"):
-                    for preset in sorted({sup[-1], "1999-12-31", "2024-11-05"}):
-                        cfgs.append({"list": sup, "pref": pref, "answer": ai, "when": "now", "distractor": False,
-                                     "tracked": True, "preset": preset})
+                    for preset in sorted({sup[-1], sup[0], "1999-12-31", "2024-11-05", "2025-06-18"}):
+                        for re in (None, "preset-then-connect", "second-connection"):
+                            cfgs.append({"list": sup, "pref": pref, "answer": ai, "when": "now", "distractor": False,
+                                         "tracked": True, "preset": preset, "reenter": re})
                 # slow peer: unbuffered write stream whose consumer stalls after taking the request
                 if len(sup) == 1 and ANSWERS[ai]["kind"] in ("version", "version-fragment"):
                     for stall in (0.5 * T, 2.5 * T):
